@@ -42,6 +42,20 @@ public class Num {
     for (int i = 0; i < n; i++) { double e = d(t.elems[i]) - m; v += e * e; }
     return s(Math.sqrt(v / n));
   }
+  /* prefix sums (left to right) of a sequence; result has the same length */
+  public static Value NPrefixSeq(Value q) {
+    TupleValue t = (TupleValue) q.toTuple(); int n = t.elems.length; Value[] out = new Value[n]; double acc = 0.0;
+    for (int i = 0; i < n; i++) { acc += d(t.elems[i]); out[i] = s(acc); }
+    return new TupleValue(out);
+  }
+  /* population variance (two-pass) of a non-empty sequence */
+  public static Value NPopVarSeq(Value q) {
+    TupleValue t = (TupleValue) q.toTuple(); int n = t.elems.length; double acc = 0.0;
+    for (int i = 0; i < n; i++) acc += d(t.elems[i]);
+    double m = acc / n, v = 0.0;
+    for (int i = 0; i < n; i++) { double e = d(t.elems[i]) - m; v += e * e; }
+    return s(v / n);
+  }
   public static Value NIsNaN(Value a) { return Double.isNaN(d(a)) ? BoolValue.ValTrue : BoolValue.ValFalse; }
   /* -1 lt, 0 bit-identical, 1 gt, 2 ambiguous (within 1e-9 relative), 3 unordered (NaN) */
   public static Value NCmp(Value a, Value b) {
